@@ -3,3 +3,4 @@ import AJ.Props.C15
 import AJ.Props.C01Doc
 import AJ.Props.C09Doc
 import AJ.Props.SlotCor2
+import AJ.Props.C15Gen
